@@ -11,6 +11,7 @@ import ParryModel.C16.Theorems7
 import ParryModel.C16.Theorems8
 import ParryModel.C16.Theorems9
 import ParryModel.C16.Theorems10
+import ParryModel.C16.Theorems11
 /-!
 # C16 property theorems: ear clipping and Hertel–Mehlhorn, for every linearly ordered field.
 
